@@ -79,6 +79,18 @@ FAULTS = [
     ('align_word', 'align foo', None, None),
     ('align_zero', 'align 0', None, None),
     ('error_directive', 'error this board is not supported', None, None),
+    ('error_bare', 'error', None, None),
+    # relocation / position modifiers with operands missing or left over (malformed expressions)
+    ('mod_hi_bare', 'addi x1, x0, %hi', None, None),
+    ('mod_hi_open', 'K9 = %hi(', None, None),
+    ('mod_lo_li', 'li x5, %lo', None, None),
+    ('mod_lo_nested', 'lui x1, %hi(%lo(', None, None),
+    ('mod_pos_bare', 'dw %position', None, None),
+    ('mod_pos_open', 'li x5, %position(main', None, None),
+    ('mod_off_two', 'li x5, %offset main end', None, None),
+    ('mod_off_paren', 'addi x1, x1, %offset(main end)', None, None),
+    ('mod_off_open', 'K9 = %offset(', None, None),
+    ('mod_off_pack', 'pack <I %offset', None, None),
     ('include_bytes_missing', 'include_bytes missing.bin', None, None),
     ('include_missing', 'include missing.asm', None, None),
     ('shadow_register', 'x5 = 3', None, None),
